@@ -121,6 +121,8 @@ def at_depth(n, fn):
 
 
 AMBIENTS = ("default", "decimal-prec-3", "decimal-prec-6-floor", "decimal-prec-1-traps", "decimal-prec-50")
+# process-wide defaults of the third-party regex package that a host application may have changed
+REGEX_AMBIENTS = ("regex-default-version-1", "regex-default-flags-ignorecase-cleared")
 
 
 @contextlib.contextmanager
@@ -130,6 +132,18 @@ def ambient(kind):
     import decimal
     if kind in (None, "default"):
         yield
+        return
+    if kind.startswith("regex-"):
+        import regex
+        saved = regex.DEFAULT_VERSION
+        try:
+            if kind == "regex-default-version-1":
+                regex.DEFAULT_VERSION = regex.VERSION1
+            else:
+                regex.DEFAULT_VERSION = regex.VERSION0
+            yield
+        finally:
+            regex.DEFAULT_VERSION = saved
         return
     with decimal.localcontext() as ctx:
         if kind == "decimal-prec-3":
